@@ -2,6 +2,7 @@ import ReplicatProofs.Lemmas.RepoSafety
 import ReplicatProofs.Lemmas.RepoCrash
 import ReplicatProofs.Lemmas.RepoConcSeq
 import ReplicatProofs.Lemmas.RepoConcRestore
+import ReplicatProofs.Lemmas.RepoConcSched
 /-!
 # C02 — no history of snapshot / delete / clean ever damages a remaining snapshot
 
@@ -235,6 +236,18 @@ theorem concurrent_equals_sequential (enc : Bool) (s : Store) (cmds cmds' : List
   have hwf1 : WF st.store := (consistent_concurrent enc s cmds tr st h hok hrun).1
   have hwf2 : WF (run enc s (cmds'.map SnapCmd.op)) := run_wf enc _ s h.1
   exact perm_of_get_eq hwf1 hwf2 hget
+
+/-- **The sequential history is one of the concurrent executions** (so the concurrent semantics extends the sequential model,
+and a complete execution exists for every list of commands whose pools have ≥ 1 worker): the trace "one command after the other,
+per chunk `exists` then upload if absent, then the snapshot object" is accepted, complete, and ends in literally the store of
+`run`. -/
+theorem sequential_is_concurrent (enc : Bool) (s : Store) (cmds : List SnapCmd) (hw : ∀ cmd ∈ cmds, 1 ≤ cmd.workers) :
+    ∃ st, crun cmds (CState.init s cmds) (seqTraceAll 0 s cmds) = some st ∧ st.complete = true ∧
+      st.store = run enc s (cmds.map SnapCmd.op) := by
+  have h := seqTraceAll_run enc cmds hw cmds [] s rfl
+  simp only [map_nil, nil_append, length_nil] at h
+  refine ⟨_, h, ?_, rfl⟩
+  simp [CState.complete]
 
 /-- **A snapshot that is listed at some point of a concurrent execution restores exactly at every later point** (README:
 non-destructive commands may overlap).  `st1` is any reachable state in which the snapshot object `(f, sid)` with body `b` is
